@@ -141,7 +141,18 @@ struct Pub {
 pub fn check(v: &View) -> Vec<Violation> {
     let mut out = vec![];
     let settled = v.phase_seq(Phase::Settled);
-    if v.out.outcome.cap_phase != 0 || v.out.outcome.hung {
+    if v.out.outcome.hung {
+        // nothing in these programs waits by design: a client operation that never returns
+        // (publish, subscribe, unsubscribe, a call into a subscriber, a broker barrier) is a
+        // deadlock somewhere between broker, registry and subscribers
+        for o in v.ops.iter().filter(|o| !o.ended() && !o.skipped() && o.client != SETUP_CLIENT) {
+            if matches!(o.inner, Op::Publish { .. } | Op::SubscribeExt { .. } | Op::Unsubscribe { .. } | Op::BrokerPing { .. } | Op::Call { .. } | Op::Send { .. } | Op::FromRegistry { .. }) {
+                out.push(violation(P, "operation-never-resolves", crate::props::c02::op_name(o.inner), format!("client {} op {} ({:?}) begun at seq {} never returned (system quiescent)", o.client, o.idx, o.inner, o.begin)));
+            }
+        }
+        return out;
+    }
+    if v.out.outcome.cap_phase != 0 {
         return out;
     }
     // publications that were accepted
